@@ -113,7 +113,8 @@ class ModelECU(Peer):
                     self.send(line_out)
 
 
-def run_scanner(cls_name: str, cfg_name: str, cfg_kwargs: dict[str, Any], model: Any, db: bool = False, keep_db: bool = False) -> dict[str, Any]:
+def run_scanner(cls_name: str, cfg_name: str, cfg_kwargs: dict[str, Any], model: Any, db: bool = False, keep_db: bool = False,
+                db_opts: dict[str, Any] | None = None) -> dict[str, Any]:
     """One complete scanner run (benign schedule). Returns observations.
     db=True: the run writes a scan database (aiosqlite replaced by vf.engine.dbshim); box['db_path'] is the file."""
     box: dict[str, Any] = {}
@@ -143,7 +144,13 @@ def run_scanner(cls_name: str, cfg_name: str, cfg_kwargs: dict[str, Any], model:
         if db:
             from vf.engine import dbshim
 
-            run.add_actor(dbshim.DbWorker())
+            w = dbshim.DbWorker()
+            for prefix, k in (db_opts or {}).get("fail", ()):
+                w.fail_matching.append((prefix, k, dbshim.OperationalError("database is locked")))
+            if (db_opts or {}).get("stall_on"):
+                w.stall_on, w.stall_iterations = db_opts["stall_on"], int(db_opts.get("stall_iterations", 200))
+            box["db_worker"] = w
+            run.add_actor(w)
         ecu = ModelECU(model)
         box["ecu"] = ecu
         ecus = [ecu]
